@@ -259,7 +259,7 @@ def cases(tier, rng):
                 yield {'mode': mode, 'thr': ['c', t], 'batches': [_batch_from(mode, [0, 1, 0], 1 if mode == 'abs' else 2, rng, ann)]}
                 yield {'mode': mode, 'thr': ['c', t], 'batches': [_batch_from(mode, [0, 0], 1, rng, ann)]}
     # sequences of batches, callable threshold changing per batch
-    for _ in range(250 if quick else 4000):
+    for _ in range(1200 if quick else 8000):
         mode = rng.choice(['abs', 'ptp'])
         nb = rng.randint(1, 4)
         ths = [rng.choice([10, 10, 7, 12, 0, 25]) for _ in range(nb)]
@@ -276,7 +276,7 @@ def cases(tier, rng):
             bs.append(_batch_from(mode, crits, rng.randint(2, 5), rng, mixed, mdbase=10 * k, variant=rng.randint(0, 7)))
         yield {'mode': mode, 'thr': (['c', ths[0]] if const else ['f', ths]), 'batches': bs}
     # random samples
-    for _ in range(150 if quick else 3000):
+    for _ in range(600 if quick else 6000):
         mode = rng.choice(['abs', 'ptp'])
         E, T = rng.randint(1, 5), rng.randint(1, 6)
         t = rng.randint(1, 12)
